@@ -157,7 +157,14 @@ func (s *session) execDF(op string, a []string) string {
 			phys = st.Size()
 		}
 		lb, ls := d.f.VerifLast()
-		return fmt.Sprintf("size logical=%d phys=%d last=%d.%d", d.f.Size(), phys, lb, ls)
+		_ = phys
+		return fmt.Sprintf("size logical=%d last=%d.%d", d.f.Size(), lb, ls)
+	case "df.phys":
+		// physical size on disk (equals the logical size for standard I/O, and for mmap after Close)
+		if st, err := os.Stat(d.path); err == nil {
+			return fmt.Sprintf("phys %d", st.Size())
+		}
+		return "phys -1"
 	case "df.sync":
 		return errClass(d.f.Sync())
 	case "df.close":
